@@ -9,6 +9,17 @@ Statements are about `Model/Tpt.lean` (mirror of `enspara/tpt/tpt.py`), with the
 1 on sinks, harmonic elsewhere, in `[0,1]`); `net_conserved_from_solver` chains the two
 properties for the committors computed from ANY solver output `B`.
 
+CORRESPONDENCE-ONLY clauses of the property (no theorem; containers, object identity and the eigen-solver are not in
+the model — `harness/props/c08.py` checks them on every case): dense and sparse containers give the same fluxes /
+populations; the inputs are not modified (also when the same objects go through committors → fluxes → net fluxes →
+populations); populations GIVEN vs COMPUTED agree (the stationary vector is a parameter of the theorems; that the
+library's `eq_probs` delivers it is checked numerically against the closed-form / exactly solved vector).
+
+OPEN KNOWN FINDING `reactive-populations-zero-normaliser`: the last clause of the property ("reactive populations are a
+probability vector …") is FALSE for ergodic reversible chains in which no intermediate state is reactive (every
+intermediate committor is 0 or 1): the code divides 0 by 0.  Full statement `C08_reactive_pop_prob_full` (not
+asserted), `reactive_pop_prob_partial` (with the positivity hypothesis), `reactive_pop_zero_normaliser_counterexample`.
+
 "Reversible" is detailed balance `π i T i j = π j T j i`; "ergodic" enters only through C07.
 -/
 open Ens Ens.Tpt Ens.LinSolveT
@@ -153,10 +164,11 @@ theorem total_out_eq_total_in_lists (n : Nat) (T : Mat) (π q : Vec) (sources si
 example : TptHyp 3 T3 π3 q3 [0] [2] := by
   constructor <;> decide +kernel
 
-/-- Reactive populations `π q⁺ q⁻ / Σ π q⁺ q⁻`: non-negative, sum to 1, vanish wherever `q` is
-0 or 1 (sources and sinks) — provided some state has positive `π q (1−q)` (otherwise the code
-divides 0 by 0; that case is outside the property's quantifier). -/
-theorem reactive_pop_prob (n : Nat) (π q : Vec)
+/-- PARTIAL (see `C08_reactive_pop_prob_full` below for the full statement, which is false): reactive populations
+`π q⁺ q⁻ / Σ π q⁺ q⁻` are non-negative, sum to 1 and vanish wherever `q` is 0 or 1 (sources and sinks) — PROVIDED some
+state has positive `π q (1−q)`.  That hypothesis is NOT a guard of the code and is NOT implied by the property's
+quantifier; what is missing without it is exactly the zero-normaliser case of the counterexample. -/
+theorem reactive_pop_prob_partial (n : Nat) (π q : Vec)
     (hπ : ∀ i, i < n → 0 ≤ π i) (hlo : ∀ i, i < n → 0 ≤ q i) (hhi : ∀ i, i < n → q i ≤ 1)
     (hpos : ∃ i, i < n ∧ 0 < π i * q i * (1 - q i)) :
     sumTo n (density π q) ≠ 0 ∧
@@ -185,15 +197,37 @@ example : (∀ i, i < 3 → 0 ≤ π3 i) ∧ (∃ i, i < 3 ∧ 0 < π3 i * q3 i 
     reactivePop 3 π3 q3 1 = 1 :=
   ⟨by decide +kernel, ⟨1, by decide +kernel⟩, by decide +kernel⟩
 
-/-- The positivity hypothesis cannot be dropped: on the path chain `0 – 1 – 2` with source `1` and
-sink `2` the only intermediate state `0` has `q = 0`, every density is 0 and the normaliser
-vanishes (the code computes 0/0 = nan there; the executable reference reports `zeroDivision`). -/
-theorem reactive_pop_zero_normaliser_counterexample :
-    ¬ (∀ (n : Nat) (π q : Vec), (∀ i, i < n → 0 ≤ π i) → (∀ i, i < n → 0 ≤ q i) →
-        (∀ i, i < n → q i ≤ 1) → sumTo n (reactivePop n π q) = 1) := by
+/-- FULL statement of the last clause of the property, as quantified ("all ergodic reversible transition matrices with
+their stationary populations, all disjoint source/sink sets", at least one intermediate state): NOT asserted — it is
+false, see the counterexample. -/
+def C08_reactive_pop_prob_full : Prop :=
+  ∀ (n : Nat) (T : Mat) (π q : Vec) (sources sinks : List Nat),
+    sources ≠ [] → sinks ≠ [] → TptHyp n T π q sources sinks →
+    (∀ i, i < n → 0 < π i) → sumTo n π = 1 →
+    (∀ i, i < n → Reach n T (sources ++ sinks) i) →
+    (∃ i, i < n ∧ i ∉ sources ∧ i ∉ sinks) →
+    (∀ i, i < n → 0 ≤ reactivePop n π q i) ∧ sumTo n (reactivePop n π q) = 1 ∧
+    (∀ s ∈ sources, reactivePop n π q s = 0) ∧ (∀ s ∈ sinks, reactivePop n π q s = 0)
+
+/-- committors of the path chain `T3` (0 – 1 – 2) for source `1`, sink `2`: the intermediate state 0 can reach the
+sink only through the source -/
+def qPath : Vec := fun i => if i = 2 then 1 else 0
+
+/-- Known finding `reactive-populations-zero-normaliser` (open): on the reversible ergodic path chain `0 – 1 – 2`
+with source `1` and sink `2` the only intermediate state has `q = 0`, every density `π q (1−q)` is 0 and the
+normaliser vanishes — the code computes 0/0 = nan (the executable reference reports `zeroDivision`; over `Rat` the
+totalised quotient is 0, so the sum is 0, not 1). -/
+theorem reactive_pop_zero_normaliser_counterexample : ¬ C08_reactive_pop_prob_full := by
   intro h
-  have := h 3 π3 (fun i => if i = 2 then 1 else 0) (by decide +kernel) (by decide +kernel)
-    (by decide +kernel)
+  have hyp : TptHyp 3 T3 π3 qPath [1] [2] := by constructor <;> decide +kernel
+  have hreach : ∀ i, i < 3 → Reach 3 T3 ([1] ++ [2]) i := by
+    intro i hi
+    match i, hi with
+    | 0, _ => exact .step (j := 1) (by decide) (by decide +kernel) (.base (by decide))
+    | 1, _ => exact .base (by decide)
+    | 2, _ => exact .base (by decide)
+  have := (h 3 T3 π3 qPath [1] [2] (by decide) (by decide) hyp (by decide +kernel) (by decide +kernel) hreach
+    ⟨0, by decide, by decide, by decide⟩).2.1
   revert this
   decide +kernel
 
